@@ -211,10 +211,13 @@ theorem folderBelow_popLive {n : Nat} {g : Folder} (h : FolderBelow n g) (k : Na
   · exact h a (Or.inr ha)
 
 /-- The one thing `Inv` does not record: file uuids of different folders are distinct. `MoveFresh s F x G` says that
-the file `move_file(F, x, G)` would move is not already (live or deleted) in the destination. In the implementation
-a `File` object sits in one folder only; the rig checks this clause on the real objects after every operation. -/
+the file `move_file(F, x, G)` is going to move — when it does move, i.e. when the destination has no live file of that name —
+is not already (live or deleted) in the destination. A move within one folder or onto a live namesake is a no-op and needs
+nothing. In the implementation a `File` object sits in one folder only; the rig checks this clause on the real objects after
+every operation. -/
 def MoveFresh (s : State) (F x G : Name) : Prop :=
-  ∀ f, getFile s F x = some f → ∀ a, a ∈ (getOrCreateFolder s G).2.files ∨ a ∈ (getOrCreateFolder s G).2.deletedFiles → a.id ≠ f.id
+  ∀ f, getFile s F x = some f → (getOrCreateFolder s G).2.getFile f.name = none →
+    ∀ a, a ∈ (getOrCreateFolder s G).2.files ∨ a ∈ (getOrCreateFolder s G).2.deletedFiles → a.id ≠ f.id
 
 theorem inv_apiMoveFile {s : State} (h : Inv s) (F x G : Name) (hfresh : MoveFresh s F x G) :
     Inv (apiMoveFile s F x G).1 := by
@@ -280,7 +283,7 @@ theorem inv_apiMoveFile {s : State} (h : Inv s) (F x G : Name) (hfresh : MoveFre
           have := folder_eq_of_id h2 hm2 hg0 hid
           subst this
           obtain ⟨m1, m2, m3⟩ := addFile_meta r.2 f
-          refine ⟨m1, m2, m3, folderInv_addFile_new di.1 hfr (getFile_none hnone') (si.1.liveFlag f hfm), ?_⟩
+          refine ⟨m1, m2, m3, folderInv_addFile_new di.1 (hfr hnone') (getFile_none hnone') (si.1.liveFlag f hfm), ?_⟩
           exact folderBelow_addFile di.2.1 (si.2.1 f (Or.inl hfm)))
         exact inv_congr h3 rfl rfl rfl rfl
 
